@@ -51,7 +51,7 @@ class P(Prop):
                 hs = []
                 for _ in range(rnd.randint(0, 4)):
                     hs.append((rnd.choice([b"X-A", b"Vary", b"Host", b"ETag", b"X-" + bytes(rnd.choice(b"abcXYZ") for _ in range(3))]),
-                               rnd.choice([b"b", b"Origin, x", b"a: b", b"", b"v=1; w", "é".encode()])))
+                               rnd.choice([b"b", b"Origin, x", b"a: b", b"", b"v=1; w", "é".encode(), b" padded-left", b"padded-right \t", b"  ", "\u00a0v\u3000".encode(), b"a  b", b"\tx"])))
                 k = rnd.choice([1, 1, 1, 2, 3, 6])
                 parts = []
                 for _ in range(k):
